@@ -55,3 +55,48 @@ Proof.
   exists ao, att, fmt. cbn. repeat split; auto.
 Qed.
 Print Assumptions C03_wiring.
+
+(* ---- each format verifier is CHARACTERISED by its declared rules (iff): nothing more is demanded than the
+   rules say, so every statement meeting them is accepted (per-format completeness, also used by C05) ---- *)
+From PW Require Import Proofs.FormatComplete.
+
+Theorem C03_packed_iff : forall O now st ad cdj pk roots,
+  verify_packed O now st ad cdj pk roots = Ok tt <-> PackedOk O now st ad cdj pk roots.
+Proof. exact verify_packed_iff. Qed.
+Print Assumptions C03_packed_iff.
+
+Theorem C03_fido_u2f_iff : forall O now st cdj rph cid pk aaguid roots,
+  verify_fido_u2f O now st cdj rph cid pk aaguid roots = Ok tt <-> U2fOk O now st cdj rph cid pk aaguid roots.
+Proof. exact verify_fido_u2f_iff. Qed.
+Print Assumptions C03_fido_u2f_iff.
+
+Theorem C03_tpm_iff : forall O now st ad cdj pk roots,
+  verify_tpm O now st ad cdj pk roots = Ok tt <-> TpmOk O now st ad cdj pk roots.
+Proof. exact verify_tpm_iff. Qed.
+Print Assumptions C03_tpm_iff.
+
+Theorem C03_aik_profile_iff : forall c, check_aik_cert c = Ok tt <-> AikOk c.
+Proof. exact check_aik_cert_iff. Qed.
+Print Assumptions C03_aik_profile_iff.
+
+Theorem C03_apple_iff : forall O now st ad cdj pk roots builtin,
+  verify_apple O now st ad cdj pk roots builtin = Ok tt <-> AppleOk O now st ad cdj pk roots builtin.
+Proof. exact verify_apple_iff. Qed.
+Print Assumptions C03_apple_iff.
+
+Theorem C03_android_key_iff : forall O now st ad cdj pk roots builtin,
+  verify_android_key O now st ad cdj pk roots builtin = Ok tt <-> AndroidKeyOk O now st ad cdj pk roots builtin.
+Proof. exact verify_android_key_iff. Qed.
+Print Assumptions C03_android_key_iff.
+
+Theorem C03_android_safetynet_iff : forall O now st ad cdj roots builtin,
+  verify_safetynet O now st ad cdj roots builtin = Ok tt <-> SafetyNetOk O now st ad cdj roots builtin.
+Proof. exact verify_safetynet_iff. Qed.
+Print Assumptions C03_android_safetynet_iff.
+
+(* the dispatch: a statement is accepted iff it meets the declared rules of the format it NAMES (all seven
+   formats; any other format name is refused) *)
+Theorem C03_statement_iff : forall O P fmt st adr cdj ad att,
+  verify_statement O P fmt st adr cdj ad att = Ok tt <-> StatementRules O P fmt st adr cdj ad att.
+Proof. exact verify_statement_iff. Qed.
+Print Assumptions C03_statement_iff.
